@@ -14,14 +14,17 @@ import ident_rules  # noqa: E402
 
 PID = "C10"
 MANIFEST = {
-    "text": "15 Coq theorems. Token level (transcription of pest's Pratt parser and pairs_to_expr_inner over token "
+    "text": "19 Coq theorems. Token level (transcription of pest's Pratt parser and pairs_to_expr_inner over token "
             "streams, table regenerated from precedence.rs / expressions.rs / pest on every run): the Pratt table built "
             "from the generated rows refines the hand-written specification table (all 34 operator rules); every tree "
             "the parser can produce is recovered from EVERY rendering that carries at least the parentheses the "
             "specification table requires (minimal, fully parenthesised, any redundant layers, either spelling of not; "
             "unbounded induction, explicit fuel bound), hence minimal and full forms parse identically and the table is "
-            "unambiguous; comments never change the conversion of ANY token stream; every output of the parser is in the "
-            "domain of the round trip; word/symbol spellings share Pratt entry and evaluator class. Character level "
+            "unambiguous; conversely, EVERY token stream the parser converts is a rendering of the result with at least "
+            "the parentheses the table requires, and every such rendering is converted to its tree (iff: the parser "
+            "accepts exactly the precedence-respecting renderings); the relational and functional "
+            "transcriptions agree; comments never change the conversion of ANY token stream; every output of the parser "
+            "is in the domain of the round trip; word/symbol spellings share Pratt entry and evaluator class. Character level "
             "(rules regenerated from grammar.pest): every plain name other than a reserved word is read whole as an "
             "identifier (symbolic in the name) and every symbol operator written without blanks is read as itself, each "
             "with the exclusion of one open known finding and a refutation lemma. Model tied to the code by exhaustive "
